@@ -1434,6 +1434,8 @@ fn main() {
          Calls are kept out of bursts that can end the actor unless calls_may_race (1 in 6; that shape is the known finding). \
          Non-trivial = a burst with >= 2 sender threads during which the actor was stopped or failed, or a name used by >= 2 successive actors; distinct = distinct serialised case.",
     );
+    // a process abort (double panic in a Drop, poisoned lock) while a case runs is a verdict about that case
+    p.crash_guard = true;
     p.quick_cases = 750;
     p.thorough_cases = 30000;
     p.replay_repeats = 20;
